@@ -5,13 +5,14 @@
  *
  * script lines:
  *   R name
- *   C op ca hasmask sfcode mfcode dfcode pres mpres sw sx mw mx dw dx w dither dox doy SRC MSK DST
+ *   C op ca hasmask sfcode mfcode dfcode pres mpres sw sx mw mx dw dx w dither dox doy drep SRC MSK DST
  *       pres: 0 plain | 1 integer translation (+3 pixels, request shifted back) | 2 scale: two destination
  *             pixels per source pixel | 3 PAD repeat (sx may leave the image) | 4 scale 1 + 1/65536
  *             | 5 1x1 image with NORMAL repeat (a solid source) | 6 PAD repeat and scale 1 + 1/65536
  *             | 7 a solid-fill image (pixman_image_create_solid_fill): SRC holds the 16-bit a r g b (little endian)
  *       mpres: 0 plain | 1 1x1 mask image with NORMAL repeat (a solid mask) | 2 a solid-fill mask (MSK: 16-bit a r g b)
  *       dither: pixman_dither_t of the destination (0 none, 1 FAST, 2 GOOD, 3 BEST, 4 bayer, 5 blue noise), dox doy its offsets
+ *       drep: repeat mode set on the DESTINATION image (0 none, 1 normal, 2 pad, 3 reflect): legal, and must not matter
  *       SRC MSK DST: hex bytes of one row (MSK "-" without mask; DST "=" keeps the destination of the
  *       previous line: a chain of operations on one destination)
  */
@@ -64,12 +65,12 @@ main (int argc, char **argv)
 	}
 	else if (kind[0] == 'C')
 	{
-	    int op, ca, hasmask, pres, mpres, dither, dox, doy, sw, sx, mw, mx, dw, dx, w, slen, mlen = 0, fresh, rx;
+	    int op, ca, hasmask, pres, mpres, dither, dox, doy, drep, sw, sx, mw, mx, dw, dx, w, slen, mlen = 0, fresh, rx;
 	    unsigned sfcode, mfcode, dfcode;
 	    uint8_t *src, *msk = NULL, *before, *src0, *msk0 = NULL;
 	    pixman_image_t *s, *m = NULL, *d;
-	    if (fscanf (in, "%d %d %d %u %u %u %d %d %d %d %d %d %d %d %d %d %d %d", &op, &ca, &hasmask, &sfcode, &mfcode, &dfcode,
-			&pres, &mpres, &sw, &sx, &mw, &mx, &dw, &dx, &w, &dither, &dox, &doy) != 18) return 3;
+	    if (fscanf (in, "%d %d %d %u %u %u %d %d %d %d %d %d %d %d %d %d %d %d %d", &op, &ca, &hasmask, &sfcode, &mfcode, &dfcode,
+			&pres, &mpres, &sw, &sx, &mw, &mx, &dw, &dx, &w, &dither, &dox, &doy, &drep) != 19) return 3;
 	    if (fscanf (in, "%65535s", tok) != 1) return 3;
 	    src = parse_hex (tok, &slen);
 	    if (fscanf (in, "%65535s", tok) != 1) return 3;
@@ -117,6 +118,8 @@ main (int argc, char **argv)
 		    pixman_image_set_repeat (m, PIXMAN_REPEAT_NORMAL);
 	    }
 	    if (!s || !d) { fprintf (stderr, "drv_composite: cannot create images\n"); return 3; }
+	    if (drep)
+		pixman_image_set_repeat (d, drep == 1 ? PIXMAN_REPEAT_NORMAL : drep == 2 ? PIXMAN_REPEAT_PAD : PIXMAN_REPEAT_REFLECT);
 	    if (dither)
 	    {
 		pixman_image_set_dither (d, (pixman_dither_t)dither);
@@ -162,7 +165,7 @@ main (int argc, char **argv)
 	    vt_w32 ("sf", sfcode); vt_w32 ("mf", mfcode); vt_w32 ("df", dfcode);
 	    vt_int ("pres", pres); vt_int ("mpres", mpres); vt_int ("sw", sw); vt_int ("sx", sx); vt_int ("mw", mw); vt_int ("mx", mx);
 	    vt_int ("dw", dw); vt_int ("dx", dx); vt_int ("w", w); vt_int ("fresh", fresh);
-	    vt_int ("dither", dither); vt_int ("dox", dox); vt_int ("doy", doy);
+	    vt_int ("dither", dither); vt_int ("dox", dox); vt_int ("doy", doy); vt_int ("drep", drep);
 	    vt_bytes ("src", src0, slen);
 	    vt_bytes ("srcafter", src, slen);
 	    vt_bytes ("msk", msk0, hasmask ? mlen : 0);
